@@ -1,8 +1,8 @@
 (* C10, part D: the Updater / Updatable level (operation sequences on a module).
-   A generic per-parameter invariant principle over arbitrary operation sequences, and its instances:
-   cache coherence, range preservation over unbounded update histories. *)
+   A generic per-parameter invariant principle over arbitrary operation sequences, and its first instance:
+   cache coherence. *)
 From Coq Require Import List ZArith Bool Arith Reals Lra Lia Permutation.
-From Inferno Require Import Base.Num Base.NumR Gen.Bounding C10.Updater C10.KernelProofs C10.AccProofs C10.OrderProofs.
+From Inferno Require Import Base.Num Base.NumR Gen.Bounding C10.Updater C10.KernelAlgebra C10.AccProofs C10.OrderProofs.
 Import ListNotations.
 Open Scope R_scope.
 
@@ -296,224 +296,3 @@ Proof.
   apply (H nm x a Ex Ea).
 Qed.
 
-(* ================================================================== instance 2: range preservation *)
-Section Range.
-Variables (target : Z) (len : nat) (mx mn cap : R).
-
-Definition in_range (x : tensorW) : Prop := Forall (fun v => mn <= v <= mx) x.
-Definition unit_part (t : tensorW) : Prop := length t = len /\ Forall (fun v => 0 <= v <= cap) t.
-(* the dependences for which the property claims the range invariant, with the admissible magnitude *)
-Definition range_bind (b : bindT RN) : Prop :=
-  (b = BFull RN (FMul RN) (Some mx) (Some mn) /\ cap = 1 /\ mn <= mx) \/
-  (b = BFull RN (FSMul RN) (Some mx) (Some mn) /\ cap = mx - mn /\ mn < mx) \/
-  (exists up lp, b = BFull RN (FSPow RN up lp) (Some mx) (Some mn) /\ 1 <= up /\ 1 <= lp /\ cap = mx - mn /\ mn < mx) \/
-  (b = BHalf RN (HB RN (HMulU RN) (Some mx)) (HB RN (HMulL RN) (Some mn)) /\ cap = 1 /\ mn <= mx) \/
-  (b = BHalf RN (HB RN (HSMulU RN (mx - mn)) (Some mx)) (HB RN (HSMulL RN (mx - mn)) (Some mn)) /\
-   cap = mx - mn /\ mn < mx).
-
-Lemma range_bind_step b x p n :
-  range_bind b -> mn <= x <= mx -> 0 <= p <= cap -> 0 <= n <= cap ->
-  mn <= x + bind_upper b x p - bind_lower b x n <= mx.
-Proof.
-  intros Hb Hx Hp Hn.
-  destruct Hb as [(-> & -> & Hm)|[(-> & -> & Hm)|[(up & lp & -> & Hu & Hl & -> & Hm)|[(-> & -> & Hm)|(-> & -> & Hm)]]]];
-    cbn [bind_upper bind_lower slot_fn].
-  - pose proof (multiplicative_step_in_range x p n mx mn Hx Hp Hn) as H.
-    pose proof (full_val_decomp (FMul RN) (Some mx) (Some mn) x p n eq_refl) as D. cbn [full_val] in D. lra.
-  - pose proof (scaled_multiplicative_step_in_range x p n mx mn Hm Hx Hp Hn) as H.
-    pose proof (full_val_decomp (FSMul RN) (Some mx) (Some mn) x p n eq_refl) as D. cbn [full_val] in D. lra.
-  - pose proof (scaled_power_step_in_range x p n mx mn up lp Hm Hx Hu Hl Hp Hn) as H.
-    pose proof (full_val_decomp (FSPow RN up lp) (Some mx) (Some mn) x p n eq_refl) as D. cbn [full_val] in D. lra.
-  - pose proof (half_multiplicative_step_in_range x p n mx mn Hx Hp Hn) as H. cbn [half_apply]. lra.
-  - pose proof (scaled_multiplicative_step_in_range x p n mx mn Hm Hx Hp Hn) as H.
-    cbn [half_apply]. unfold bound_scaled_multiplicative in H. cbv zeta in H.
-    rn_simpl. lra.
-Qed.
-Lemma range_bind_ok b : range_bind b -> bind_ok b /\ 0 <= cap.
-Proof.
-  intros [(-> & -> & Hm)|[(-> & -> & Hm)|[(up & lp & -> & Hu & Hl & -> & Hm)|[(-> & -> & Hm)|(-> & -> & Hm)]]]];
-    cbn; repeat split; auto; lra.
-Qed.
-
-Ltac isplit := split; [|split; [|split; [|split; [|split; [|split]]]]].
-
-Definition Irange (nm : Z) (x : tensorW) (a : accR) : Prop :=
-  nm = target ->
-  length x = len /\ in_range x /\ range_bind (abind RN a) /\ red_hull (ared RN a) /\
-  Forall unit_part (apos RN a) /\ Forall unit_part (aneg RN a) /\ coh a.
-
-Lemma Irange_cfg nm x a a' :
-  Irange nm x a -> same_cfg a a' -> coh a' -> Irange nm x a'.
-Proof.
-  intros H (P & Nn & Rr & B) Hc E. destruct (H E) as (L & Hx & Hb & Hh & Hp & Hn & _).
-  rewrite P, Nn, Rr, B. isplit; auto.
-Qed.
-
-Lemma rcol_unit red parts j :
-  red_hull red -> 0 <= cap -> Forall unit_part parts -> (j < len)%nat -> 0 <= rcol red parts j <= cap.
-Proof.
-  intros Hh Hc Hp Hj. unfold rcol. destruct parts as [|p0 t]; [lra|].
-  apply Hh; [cbn; congruence|]. unfold column. rewrite Forall_map.
-  eapply Forall_impl; [|exact Hp]. intros p [Lp Fp]. rewrite Forall_forall in Fp. apply Fp, nth_In. rewrite <- Lp in Hj. exact Hj.
-Qed.
-
-Lemma Irange_stable : stable Irange.
-Proof.
-  constructor; intros nm x a H.
-  - destruct (Z.eq_dec nm target) as [E|NE]; [|intros E; contradiction].
-    destruct (H E) as (_ & _ & _ & _ & _ & _ & Hc).
-    destruct (get_pos_spec a Hc) as (a' & Eg & Hc' & S). rewrite Eg. eapply Irange_cfg; eauto.
-  - destruct (Z.eq_dec nm target) as [E|NE]; [|intros E; contradiction].
-    destruct (H E) as (_ & _ & _ & _ & _ & _ & Hc).
-    destruct (get_neg_spec a Hc) as (a' & Eg & Hc' & S). rewrite Eg. eapply Irange_cfg; eauto.
-  - destruct (Z.eq_dec nm target) as [E|NE]; [|intros E; contradiction].
-    destruct (H E) as (_ & _ & _ & _ & _ & _ & Hc).
-    destruct (acc_update_coherent a x Hc) as (a' & Eg & Hc' & S). rewrite Eg. eapply Irange_cfg; eauto.
-  - destruct (Z.eq_dec nm target) as [E|NE].
-    2:{ destruct (acc_forward RN a x) as [a' [y|e]]; intros E; contradiction. }
-    destruct (H E) as (L & Hx & Hb & Hh & Hp & Hn & Hc).
-    destruct (range_bind_ok _ Hb) as [Hok Hcap].
-    assert (W : wshape a (length x)).
-    { rewrite L. split; (eapply Forall_impl; [|eassumption]); intros p [Lp _]; exact Lp. }
-    destruct (apply_spec a x Hc W Hok) as (a' & y & Eg & Hc' & S & Ly & Hy). rewrite Eg.
-    intros _. destruct S as (P & Nn & Rr & B). rewrite P, Nn, Rr, B.
-    split; [exact (eq_trans Ly L)|]. split; [|split; [auto|split; [auto|split; [auto|split; auto]]]].
-    unfold in_range. apply Forall_forall. intros v Hv.
-    destruct (In_nth y v 0 Hv) as (j & Hj & <-). rewrite Ly in Hj. rewrite (Hy j Hj).
-    assert (Hxj : mn <= nth j x 0 <= mx).
-    { unfold in_range in Hx. rewrite Forall_forall in Hx. apply Hx, nth_In, Hj. }
-    assert (Hj' : (j < len)%nat) by (rewrite <- L; exact Hj).
-    pose proof (rcol_unit (ared RN a) (apos RN a) j Hh Hcap Hp Hj') as Rp.
-    pose proof (rcol_unit (ared RN a) (aneg RN a) j Hh Hcap Hn Hj') as Rn.
-    pose proof (range_bind_step _ _ _ _ Hb Hxj Rp Rn) as Hs.
-    destruct (apos RN a), (aneg RN a); try exact Hs. exact Hxj.
-  - intros E. destruct (H E) as (L & Hx & Hb & Hh & Hp & Hn & Hc).
-    isplit; cbn; auto. apply coh_del_pos, Hc.
-  - intros E. destruct (H E) as (L & Hx & Hb & Hh & Hp & Hn & Hc).
-    isplit; cbn; auto. apply coh_del_neg, Hc.
-Qed.
-
-(* admissible operations of a history: contributions to the target parameter have the parameter's size and
-   magnitudes in [0, cap]; the target's binding and reduction are not changed; a direct assignment of the
-   target keeps it inside the limits; everything else (other parameters, reads, update / updatesome / clear /
-   apply in any interleaving) is unrestricted *)
-Definition ok_part (p : option tensorW) : Prop := match p with None => True | Some t => unit_part t end.
-Definition good_op (o : opR) : Prop :=
-  match o with
-  | OpAdd _ k p n => k = target -> ok_part p /\ ok_part n
-  | OpAddT _ k p | OpAddPos _ k p | OpAddNeg _ k p => k = target -> ok_part p
-  | OpReduction _ k _ | OpUpper _ k _ _ | OpLower _ k _ _ | OpFull _ k _ _ _ => k <> target
-  | OpSetParam _ k v => k = target -> length v = len /\ in_range v
-  | OpNewUpdater _ _ _ => False
-  | _ => True
-  end.
-
-Lemma Irange_add_pos nm x a p : (nm = target -> ok_part p) -> Irange nm x a -> Irange nm x (add_pos RN a p).
-Proof.
-  intros Hp H E. destruct (H E) as (L & Hx & Hb & Hh & Fp & Fn & Hc). specialize (Hp E).
-  destruct p as [t|]; [|isplit; auto].
-  isplit; cbn; auto; [|apply (coh_add_pos a (Some t)), Hc].
-  apply Forall_app. split; [exact Fp|constructor; [exact Hp|constructor]].
-Qed.
-Lemma Irange_add_neg nm x a p : (nm = target -> ok_part p) -> Irange nm x a -> Irange nm x (add_neg RN a p).
-Proof.
-  intros Hp H E. destruct (H E) as (L & Hx & Hb & Hh & Fp & Fn & Hc). specialize (Hp E).
-  destruct p as [t|]; [|isplit; auto].
-  isplit; cbn; auto; [|apply (coh_add_neg a (Some t)), Hc].
-  apply Forall_app. split; [exact Fn|constructor; [exact Hp|constructor]].
-Qed.
-
-Lemma good_op_safe o : good_op o -> safe_op Irange o.
-Proof.
-  destruct o; cbn; intros Hg; try exact I; try contradiction; intros.
-  - apply Irange_add_neg; [intros E; apply Hg, E|]. apply Irange_add_pos; [intros E; apply Hg, E|assumption].
-  - apply Irange_add_pos; assumption.
-  - apply Irange_add_pos; assumption.
-  - apply Irange_add_neg; assumption.
-  - intros E; contradiction.
-  - intros E; contradiction.
-  - intros E; contradiction.
-  - intros E; contradiction.
-  - intros E. destruct (H E) as (L & Hx & Hr). destruct (Hg E) as [Lv Hv]. split; [exact Lv|split; [exact Hv|exact Hr]].
-Qed.
-
-(* THE INVARIANT over arbitrarily long histories *)
-Theorem range_invariant_history ops w :
-  holds Irange w -> Forall good_op ops -> holds Irange (run RN w ops).
-Proof.
-  intros H Hg. apply run_holds; [apply Irange_stable| |exact H].
-  eapply Forall_impl; [|exact Hg]. apply good_op_safe.
-Qed.
-
-(* how the invariant is established: a fresh updater with a hull-preserving reduction, then fullbound *)
-Lemma range_setup (ps : list (Z * tensorW)) (x : tensorW) g k :
-  lookup target ps = Some x -> length x = len -> in_range x -> red_hull g ->
-  range_bind (BFull RN k (Some mx) (Some mn)) ->
-  holds Irange (run RN (mkWorld RN ps None)
-                  [OpNewUpdater RN [target] (Some g); OpFull RN target (Some k) (Some mx) (Some mn)]).
-Proof.
-  intros Ex L Hx Hg Hb. cbn [run step fst forallb params]. rewrite Ex. cbn [andb fst map params].
-  unfold on_acc, find_acc. cbn [upd lookup]. rewrite Z.eqb_refl. cbn [fst].
-  unfold put_acc. cbn [replace params]. rewrite Z.eqb_refl. intros us E. cbn in E. injection E as <-.
-  intros nm y a Hy Ha. cbn in Hy, Ha. destruct (Z.eqb nm target) eqn:En; [|discriminate].
-  injection Ha as <-. apply Z.eqb_eq in En. subst nm. rewrite Ex in Hy. injection Hy as <-.
-  intros _. isplit; cbn; auto. split; cbn; auto.
-Qed.
-End Range.
-
-(* the property's sentence, end to end: configure, then ANY admissible history, then look at the parameter *)
-Theorem stays_in_range_forever target mx mn cap (ps : list (Z * tensorW)) (x : tensorW) g k ops us a (y : tensorW) :
-  lookup target ps = Some x -> in_range mx mn x -> red_hull g ->
-  range_bind mx mn cap (BFull RN k (Some mx) (Some mn)) ->
-  Forall (good_op target (length x) mx mn cap) ops ->
-  let w := run RN (mkWorld RN ps None)
-             ([OpNewUpdater RN [target] (Some g); OpFull RN target (Some k) (Some mx) (Some mn)] ++ ops) in
-  upd RN w = Some us -> lookup target us = Some a -> lookup target (params RN w) = Some y ->
-  length y = length x /\ in_range mx mn y.
-Proof.
-  intros Ex Hx Hg Hb Hops w Eu Ea Ey.
-  assert (Hrun : forall l1 l2 w0, run RN w0 (l1 ++ l2) = run RN (run RN w0 l1) l2).
-  { induction l1; intros; cbn [run app]; auto. }
-  unfold w in *. rewrite Hrun in Eu, Ey.
-  pose proof (range_setup target (length x) mx mn cap ps x g k Ex eq_refl Hx Hg Hb) as H0.
-  pose proof (range_invariant_history target (length x) mx mn cap ops _ H0 Hops us Eu target y a Ey Ea eq_refl) as H.
-  destruct H as (L & Hy & _). auto.
-Qed.
-
-(* the three dependences named by the property *)
-Corollary multiplicative_stays_in_range target mx mn (ps : list (Z * tensorW)) (x : tensorW) g ops us a (y : tensorW) :
-  mn <= mx -> lookup target ps = Some x -> in_range mx mn x -> red_hull g ->
-  Forall (good_op target (length x) mx mn 1) ops ->
-  let w := run RN (mkWorld RN ps None)
-             ([OpNewUpdater RN [target] (Some g); OpFull RN target (Some (FMul RN)) (Some mx) (Some mn)] ++ ops) in
-  upd RN w = Some us -> lookup target us = Some a -> lookup target (params RN w) = Some y ->
-  in_range mx mn y.
-Proof.
-  intros Hm Ex Hx Hg Hops w Eu Ea Ey.
-  eapply (stays_in_range_forever target mx mn 1 ps x g (FMul RN) ops us a y); eauto.
-  left. auto.
-Qed.
-Corollary scaled_multiplicative_stays_in_range target mx mn (ps : list (Z * tensorW)) (x : tensorW) g ops us a (y : tensorW) :
-  mn < mx -> lookup target ps = Some x -> in_range mx mn x -> red_hull g ->
-  Forall (good_op target (length x) mx mn (mx - mn)) ops ->
-  let w := run RN (mkWorld RN ps None)
-             ([OpNewUpdater RN [target] (Some g); OpFull RN target (Some (FSMul RN)) (Some mx) (Some mn)] ++ ops) in
-  upd RN w = Some us -> lookup target us = Some a -> lookup target (params RN w) = Some y ->
-  in_range mx mn y.
-Proof.
-  intros Hm Ex Hx Hg Hops w Eu Ea Ey.
-  eapply (stays_in_range_forever target mx mn (mx - mn) ps x g (FSMul RN) ops us a y); eauto.
-  right. left. auto.
-Qed.
-Corollary scaled_power_stays_in_range target mx mn up lp (ps : list (Z * tensorW)) (x : tensorW) g ops us a (y : tensorW) :
-  mn < mx -> 1 <= up -> 1 <= lp -> lookup target ps = Some x -> in_range mx mn x -> red_hull g ->
-  Forall (good_op target (length x) mx mn (mx - mn)) ops ->
-  let w := run RN (mkWorld RN ps None)
-             ([OpNewUpdater RN [target] (Some g); OpFull RN target (Some (FSPow RN up lp)) (Some mx) (Some mn)] ++ ops) in
-  upd RN w = Some us -> lookup target us = Some a -> lookup target (params RN w) = Some y ->
-  in_range mx mn y.
-Proof.
-  intros Hm Hu Hl Ex Hx Hg Hops w Eu Ea Ey.
-  eapply (stays_in_range_forever target mx mn (mx - mn) ps x g (FSPow RN up lp) ops us a y); eauto.
-  right. right. left. exists up, lp. auto.
-Qed.
